@@ -119,3 +119,8 @@ Proof.
   intros SA UA SB UB Hv HR.
   apply (list_unchanged R A B lo hi R'); [exact Hv|exact HR|apply list_at_spec; assumption|apply list_at_spec; assumption].
 Qed.
+
+(* List at any revision >= R is the same before and after (Count is its length: C07_list_at_unchanged) *)
+Lemma list_spec_unchanged R A B lo hi R' l1 l2 :
+  veq R A B -> R <= R' -> list_spec A lo hi R' l1 -> list_spec B lo hi R' l2 -> l1 = l2.
+Proof. intros Hv HR H1 H2. exact (proj1 (list_unchanged R A B lo hi R' l1 l2 Hv HR H1 H2)). Qed.
